@@ -923,7 +923,10 @@ class ConsistencyValue(Contract):
                 ("couplings-are-design-variables", z3.ForAll([j], z3.Implies(z3.And(0 <= j, j < k.oc.n), z3.And(d.member[k.oc.a[j]], d.pos[k.oc.a[j]] >= 0)), patterns=[k.oc.a[j]])),
                 ("vector-has-the-full-dimension", ln(c.old.x_vect) == off(k.a.a, k.sz, k.a.n)),
                 ("coupling-function-has-one-component-per-coupling-component", z3.ForAll([v], F1.dim(coupling_y(v)) == k.total, patterns=[coupling_y(v)])),
-                ("norm-factor-has-one-component-per-coupling-component", ln(k.nf) == k.total)]
+                ("norm-factor-has-one-component-per-coupling-component", ln(k.nf) == k.total),
+                # call site: IDF._build_constraints passes IDF._get_normalization_factor(...), which (since the fix recorded in
+                # known_findings.json) replaces infinite and null ranges by 1
+                ("norm-factor-is-finite-and-non-zero", z3.Not(self.finding_regions(c)["degenerate-normalization-factor"]))]
 
     def axioms(self, c):
         k = _CC(c.old.self)
@@ -989,3 +992,35 @@ class GetXNamesOfDisc(Contract):
                 ("only-inputs", z3.ForAll([j], z3.Implies(z3.And(0 <= j, j < r.n), g.member[r.a[j]]), patterns=[r.a[j]])),
                 ("all-design-variables-that-are-inputs", z3.ForAll([j], z3.Implies(z3.And(0 <= j, j < a.n, g.member[a.a[j]]),
                                                                                    z3.And(0 <= inv[j], inv[j] < r.n, r.a[inv[j]] == a.a[j])), patterns=[a.a[j]]))]
+
+
+# ---------------------------------------------------------------------------- IDF keeps the coupling targets in the design space
+IDFC = "gemseo.formulations.idf.IDF"
+schema(IDFC, {"all_couplings": TList(TStr), "optimization_problem": TObj(OP, schema_key=OP + "#c17"), "variable_sizes": TDict(TStr, TInt)})
+
+
+@register
+class SetDefaultInputsFromDesignSpace(Contract):
+    targets = (BF + "._set_default_input_values_from_design_space",)
+    prop = ("C17",)
+    trusted = True
+    description = ("assumed: _set_default_input_values_from_design_space only updates the default input values of the top-level disciplines "
+                   "(no effect on the formulation, its design space or its sizes)")
+
+
+@register
+class IdfUpdateDesignSpace(Contract):
+    """IDF requires every coupling variable as a design variable (ValueError otherwise) and leaves the design space as it is."""
+
+    targets = (IDFC + "._update_design_space",)
+    prop = ("C17",)
+    np_c17 = True
+    raises = {"ValueError": lambda c: z3.Exists([z3.Int("j!iu")], z3.And(0 <= z3.Int("j!iu"), z3.Int("j!iu") < c.old.self.all_couplings.n,
+                                                                      z3.Not(dsvars(c).member[c.old.self.all_couplings.elems[z3.Int("j!iu")]])))}
+
+    def ensures(self, c):
+        d0, d1 = dsvars(c), c.new.self.optimization_problem.design_space._variables
+        j = z3.Int("j!ie")
+        cp = c.old.self.all_couplings
+        return [("couplings-are-design-variables", z3.ForAll([j], z3.Implies(z3.And(0 <= j, j < cp.n), d1.member[cp.elems[j]]), patterns=[cp.elems[j]])),
+                ("design-space-unchanged", z3.And(d1.n == d0.n, d1.keys == d0.keys, d1.member == d0.member, d1.vals == d0.vals))]
